@@ -31,6 +31,35 @@ CHECKS['C10'] = dict(
          '17 shipped files and generated files stands in, labelled bounded and not counted as discharged. Refutations are lifted to a concrete '
          '(registry, number) pair by bounded search and replayed on the real _find.',
     technique='loop-invariant VCs generated from the real AST, z3 (sequences + uninterpreted monoids)')
+_VF_NOTE = ('Trusted: the encoding of Python semantics in pyvc (int() grammar, Unicode classes, regex shapes, case mapping) generated from the '
+            'running CPython 3.12; contracts of clean() (proved by C14), NumDB lookup (C10) and Mod 97-10 (C06). Strings longer than 40 characters are '
+            'covered by the LongStr abstraction; units that hit the path/time budget or leave the subset are reported undecided and are not '
+            'counted as discharged. Refutations are replayed on the real validate(); listed known findings print KNOWN-FINDING.')
+CHECKS['C01'] = dict(
+    category='proof', design_ref='DESIGN.md §C01',
+    text='Every path of validate() of every discoverable module is enumerated symbolically for every input length 0..40 and for the unbounded '
+         'tail, for every option valuation: each partial operation (int(), index(), subscripts, dict look-ups, date(), unpacking ...) is a '
+         'precondition whose failing branch must be infeasible or end in a ValidationError; returned values must be non-empty strings.',
+    note=_VF_NOTE, technique='symbolic execution of the real ASTs with builtin contracts; interval domain + z3; replay of models')
+CHECKS['C02'] = dict(
+    category='proof', design_ref='DESIGN.md §C02',
+    text='On every accepting path of validate() the returned value is re-validated symbolically under the path condition: every path of the '
+         'second run must return the same string, and the first and last character cannot be white space.',
+    note=_VF_NOTE, technique='nested symbolic execution under the accepting path condition, z3 entailment')
+CHECKS['C15'] = dict(
+    category='proof', design_ref='DESIGN.md §C15',
+    text='On every accepting path of validate() of every identifier module the path condition must entail that all returned characters are '
+         'ASCII (or one of the national letters the property allows); the builtin contracts are Unicode-faithful, so gates based on \\d, '
+         'str.isalpha, int() leave non-ASCII characters satisfiable and are reported with a replayed witness.',
+    note=_VF_NOTE, technique='symbolic execution, Unicode class tables from the running interpreter, z3')
+CHECKS['C03'] = dict(
+    category='proof', design_ref='DESIGN.md §C03',
+    text='Dependency contract: in validate() of each of the 217 modules with compact() the raw argument flows only into the module\'s own '
+         'compact() or into functions whose normalisation chain (computed by symbolic execution of their compact) absorbs it. Decided on the '
+         'AST with alias resolution; modules where this is not syntactic are undecided and covered by a bounded differential on decorated '
+         'corpus numbers, labelled bounded.',
+    note='Trusted: C14 (clean is map-then-delete) and determinism of callees (C13). Excluded by the property: ISAN, MEID, US SSN/ITIN/EIN/ATIN/TIN.',
+    technique='data-flow (frame) obligation on the real AST + normalisation chains from symbolic execution')
 PENDING = {
 }
 ALL = ['C%02d' % i for i in range(1, 19)]
